@@ -311,7 +311,7 @@ constexpr int NPRES = 6;
 // id flavours: 0 small ints, 1 typeid pointers, 2 strides, 3 high bits,
 // 4 random 64 bit, 5 low bits (alias friendly: id = base*4 + alias)
 void assign_ids(Rng& rng, Registry& r, int flavour, int aliases);
-constexpr int NIDFLAVOURS = 6;
+constexpr int NIDFLAVOURS = 7; // 6: small integers with low-bit aliases
 const char* idflavour_name(int f);
 Registry gen_registry(Rng& rng, const GenProfile& p, int pres_kind, int id_flavour);
 uint64_t registry_hash(const Registry& r);
